@@ -153,6 +153,9 @@ def _run_simfs(ch, cfg, hist, nextra):
             # the first writer's keys; two store objects do not coordinate (nothing promises that), so there the
             # second writer keeps to keys of its own
             k2 = hist[nextra + ch.draw(n1 - nextra, "k2")][0] if nh == 1 else ch.pick(["w2/a", "w2b"], "k2own")
+            if nh == 1 and "/" in k2 and ch.draw(2, "k2sibling") == 0:
+                # ... or a key of its own in the same (possibly not yet existing) directory as a key of the first writer
+                k2 = k2.rsplit("/", 1)[0] + "/w2sib"
             hist2.append((k2, gen_literal(ch, allow_undef=False, tag="v2")))
     hist = list(hist) + hist2
     vals = _values(hist)
